@@ -731,9 +731,11 @@ class WasmToIrCompiler:
 
             # TODO: use 8 as increment, to play safe
             # but we could be more efficient here.
-            inc = self.emit(ir.Const(8, "inc", ir.ptr))
+            # Phis must be the first instructions of the block:
             for final_phi in final_phis:
                 self.emit(final_phi)
+            inc = self.emit(ir.Const(8, "inc", ir.ptr))
+            for final_phi in final_phis:
                 # Store value:
                 self.emit(ir.Store(final_phi, multiple_return_data_ptr))
                 multiple_return_data_ptr = self.emit(
